@@ -403,6 +403,8 @@ def d5(ctx, prog):
 
 
 def run(ctx, prog):
+    from .. import universe as _uni0
+    _uni0.inline_base_entry_points(ctx, prog)
     ctx.rule('C12-D1', 'lookup table: -1 fill, table[values[i]] = i over all declared values, plain table[x] lookup; _accumulate receives the lookup output on every accepted path')
     ctx.rule('C12-D2', 'sentinel-capable values are guarded before index use; template rows are selected by class position')
     ctx.rule('C12-D3', 'per-class outputs are built by enumerate(self.partitions) and indexed by position')
